@@ -177,7 +177,35 @@ pub fn parse_fun_args(it: &mut LexIterator) -> ParseResult<Vec<AST>> {
     })?;
 
     it.eat(&Token::RRBrack, "function arguments")?;
+    check_parameters(&args)?;
     Ok(args)
+}
+
+/// A list of parameters (of a function, an anonymous function or a class) names every parameter
+/// once and has at most one vararg: Python cannot express anything else.
+pub fn check_parameters(args: &[AST]) -> ParseResult<()> {
+    let (mut names, mut seen_vararg) = (vec![], false);
+    for arg in args {
+        let (var, vararg) = match &arg.node {
+            Node::FunArg { var, vararg, .. } => (var, *vararg),
+            Node::VariableDef { var, .. } => (var, false),
+            _ => continue,
+        };
+
+        if let Node::Id { lit } = &var.node {
+            if names.contains(lit) {
+                let msg = format!("Duplicate parameter '{lit}'");
+                return Err(Box::from(custom(&msg, var.pos)));
+            }
+            names.push(lit.clone());
+        }
+
+        if vararg && seen_vararg {
+            return Err(Box::from(custom("Only one vararg is allowed", arg.pos)));
+        }
+        seen_vararg |= vararg;
+    }
+    Ok(())
 }
 
 pub fn parse_fun_arg(it: &mut LexIterator) -> ParseResult {
